@@ -163,7 +163,7 @@ var All = []*Prop{
 		Explanation: "Memory-safety clause. Element access is unsafe.Add(SliceData(buf), idx) with no bounds check and the only run-time event that invalidates a once-valid index is detach (length/offset/elemSize/viewedArrayBuf are written only at construction: checked). " +
 			"R-FRESH-DETACH is a forward must-dataflow over SSA with inter-procedural summaries: every call of typedArray.{get,set,getRaw,setRaw,less,swap,export} and every slicing/indexing/copy of arrayBufferObject.data must be reached only by paths on which the buffer was checked not-detached (ensureNotDetached(true), the true edge of ensureNotDetached(false)/isValidIntegerIndex, !detached), or is a brand-new unescaped buffer, after the last call that may run script and return. 'May run script' is a greatest-fixed-point summary over the VTA call graph (calls that only run script on a path ending in panic do not count; typeErrorResult(true,..) is recognised as no-return). " +
 			"Side obligations checked on every run: the value passed to typedArray.set is already primitive (conversion before the element pointer is computed); typeMatch implementations are call-free; assertCallable/assertConstructor implementations never invoke; the sort-context needValidate protocol; field stability; defaultCtor is always r.global.<TypedArray>; buffer data is only replaced by detach() or on new buffers; ensureNotDetached returns true only on the !detached edge. " +
-			"R-IDXBOUND (index range): for each of the 43 accessor calls indexed with X.offset + k a small linear-inequality prover shows k - X.length + 1 <= 0 and -k <= 0 from the controlling branch conditions of the call, the definitions of the values involved (min/max, relToIdx - itself proved from its body -, x/c, +-const), phis split per incoming edge with that edge's conditions, loop counters that only move towards the safe side, the post-condition of typedArrayCreate (result length >= requested, checked) and typedArrayObject.length >= 0. One site is an audited exception (filter's keptTa). " +
+			"R-IDXBOUND (index range): for each of the 43 accessor calls indexed with X.offset + k a small linear-inequality prover shows k - X.length + 1 <= 0 and -k <= 0 from the controlling branch conditions of the call, the definitions of the values involved (min/max, relToIdx - itself proved from its body -, x/c, +-const), phis split per incoming edge with that edge's conditions, loop counters that only move towards the safe side, the post-condition of typedArrayCreate (result length >= requested, checked) and typedArrayObject.length >= 0. One site is an audited exception (filter's keptTa). The same prover decides the two places where the address of an element is taken from the byte slice (&data[(offset+k)*elemSize]), the three copy() calls whose destination is a slice of a view's buffer (explicit end <= offset+length, or start + number of source elements <= length; element sizes are unified under a defaultCtor equality test), and typedArray.export is called with exactly (X.offset, X.length). " +
 			"R-UNSAFEOWNER: package unsafe is referenced only in the element accessors (whose call sites are the guarded uses) and an audited table of dereference-free idioms.",
 		Assumptions: []string{
 			"constructing through an intrinsic %TypedArray% constructor (X.defaultCtor, always loaded from r.global) with primitive arguments runs no user code: its 'prototype' property is a non-configurable data property",
@@ -171,7 +171,7 @@ var All = []*Prop{
 		},
 		Technique:  "guard-freshness forward dataflow on SSA with may-run-script kills (VTA call graph fixed point), escape-aware local objects, alias summaries; symbolic linear-inequality bounds proof over SSA (branch conditions + definitions, depth-bounded search); who-may-use rule for package unsafe",
 		DesignRef:  "DESIGN.md section 4, C17",
-		NotCovered: "index ranges of the 9 accessor calls whose index is absolute (newly created arrays indexed from 0, the sort context's cached offset) and of raw byte-slice arithmetic on ArrayBuffer.data (copyWithin/set/slice memmove paths, DataView offsets); integer overflow of index arithmetic; byte-level NumericToRawBytes semantics; aliasing equality of views; Go-side []byte sharing after Detach",
+		NotCovered: "index ranges of the 9 accessor calls whose index is absolute (newly created arrays indexed from 0, the sort context's cached offset) and of the remaining raw byte-slice arithmetic on ArrayBuffer.data (source slices, DataView offsets, ArrayBuffer.prototype.slice); integer overflow of index arithmetic; byte-level NumericToRawBytes semantics; aliasing equality of views; Go-side []byte sharing after Detach",
 	},
 	{
 		ID:    "C13",
@@ -199,11 +199,12 @@ var All = []*Prop{
 	},
 	{
 		ID:    "C09",
-		Rules: []*core.Rule{rules.CtxFields, rules.TryPair, rules.GenResume, rules.MarkerTest},
+		Rules: []*core.Rule{rules.CtxFields, rules.TryPair, rules.GenResume, rules.MarkerTest, rules.GenState},
 		Explanation: "Faithful suspension requires that suspend() and resume() move exactly the per-activation state. R-CTXFIELDS derives from the declarations of vm, context, execCtx and tryFrame the set of registers and auxiliary stacks and checks that suspend saves and cuts each stack that resume appends back, that execCtx has a slot for each, and that every positional tryFrame field recorded by pushTryFrame is made relative by suspend and absolute by resume (or recomputed). " +
 			"R-TRYPAIR: the generator/async entry points (generator.next/nextThrow, generatorObject.init/_return, asyncRunner.start) release their marker frame panic-safely, so the runtime and the generator protocol remain usable after an interrupt/stack overflow inside a body. " +
 			"R-GENRESUME: next()/throw() reach the suspended body only by resuming it - enterNext() (which calls vm.resume(&g.ctx)) dominates every return of generator.next/nextThrow, and the saved stacks of execCtx are touched only by vm.suspend/vm.resume (audited read-only exception: captureAsyncStack) - so an injected exception always unwinds through the body's open iterators and finally blocks. " +
-			"R-MARKERTEST: whoever classifies a try frame as an entry marker by catchPos == tryPanicMarker also tests the in-place tag finallyRet == -2 (a generator frame whose finally runs for return() carries the same catchPos).",
+			"R-MARKERTEST: whoever classifies a try frame as an entry marker by catchPos == tryPanicMarker also tests the in-place tag finallyRet == -2 (a generator frame whose finally runs for return() carries the same catchPos). " +
+			"R-GENSTATE: throw()/return() delivered to a generator in suspendedStart store genStateCompleted on every path before leaving (GeneratorResumeAbrupt step 2).",
 		Technique:  "writer/reader field-set agreement derived from struct declarations; panic-safe acquire/release pairing; must-pass-through (dominance) of the resume call; who-may-access on saved-context fields; sibling-test agreement",
 		DesignRef:  "DESIGN.md section 4, C09",
 		NotCovered: "the generator state machine itself (results of next/throw/return sequences), yield* delegation protocol, survival of locals and partially evaluated expressions (stack copy contents), async ordering: history-level semantics",
